@@ -273,7 +273,11 @@ func (g *Gen) settle(subs []*Sub) {
 // avoidBoundaries (twin runs): never pull while a lease or retention boundary of
 // the subscription may fall into the pull - whether the message is included
 // would then depend on microseconds, which the two twins do not share. Jumps
-// are decided from the model alone, so both twins take the same ones.
+// are decided from the model alone, so both twins take the same ones. (Not
+// for profiles without the statement tick: their twins share one clock, and
+// long jumps with the real prune services ticking in the background are slow -
+// six services waking together queue up on SQLite's busy handler, which sleeps
+// in real time.)
 func (g *Gen) avoidBoundaries(s *Sub) {
 	const margin = 3 * time.Millisecond
 	for iter := 0; iter < 8; iter++ {
@@ -376,7 +380,7 @@ func (g *Gen) Step() {
 		if !dlDue && r.Intn(3) == 0 && !g.P.ProbeOnly {
 			max = 1 + r.Intn(3)
 		}
-		if g.P.ProbeOnly {
+		if g.P.ProbeOnly && !g.P.NoTick {
 			g.avoidBoundaries(s)
 		}
 		w.Pull(s.Name, max)
@@ -401,7 +405,7 @@ func (g *Gen) Step() {
 			w.Jump(d + 5*time.Millisecond)
 		}
 		g.settle([]*Sub{s})
-		if g.P.ProbeOnly {
+		if g.P.ProbeOnly && !g.P.NoTick {
 			g.avoidBoundaries(s)
 		}
 		w.Pull(s.Name, len(s.outstanding())+5)
@@ -724,7 +728,7 @@ func (g *Gen) Drain() {
 				continue
 			}
 			g.settle([]*Sub{s})
-			if g.P.ProbeOnly {
+			if g.P.ProbeOnly && !g.P.NoTick {
 				g.avoidBoundaries(s)
 			}
 			rms := w.Pull(s.Name, len(s.outstanding())+5)
